@@ -778,6 +778,10 @@ class GeomEval(AutoEvaluator):
                 for x in v:
                     tot = tot + need(x) * need(x)
                 return F.sqrt(tot)
+        if name in ("math.radians", "np.radians", "np.deg2rad") and nargs == 1:
+            return map_value(lambda x: x * F.sym("pi") / 180, self.ev(node.args[0]))
+        if name in ("math.degrees", "np.degrees", "np.rad2deg") and nargs == 1:
+            return map_value(lambda x: x * 180 / F.sym("pi"), self.ev(node.args[0]))
         if name in ABS and nargs == 1:
             v = self.ev(node.args[0])
             return map_value(lambda x: F.fn("abs", x), v)
@@ -1460,7 +1464,20 @@ def atan2_rule(angles, positives):
     domain makes positive); = u + pi for -k.  Anything else stays an atan2 application."""
     pi = F.sym("pi")
 
+    def unroot(v):
+        # a square root is non-negative: it is the positive quantity q whenever v^2 = q^2
+        d = single_atom(v) if is_rat(v) else None
+        if d is not None and d[0] == "sqrt":
+            for q in positives:
+                try:
+                    if (v * v - q * q).is_zero():
+                        return q
+                except Unsupported:
+                    pass
+        return v
+
     def rule(y, x):
+        y, x = unroot(y), unroot(x)
         for u in angles:
             try:
                 su, cu = F.sin(u), F.cos(u)
